@@ -116,7 +116,7 @@ class Gen:
         r, p = self.r, self.p
         choices = [(2.0, "log"), (1.0, "def"), (0.8, "assign")]
         if depth > 0:
-            choices += [(1.2, "if"), (p["loops"], "for"), (p["loops"] * 0.5, "while"), (p["errors"], "try"), (p["funcs"], "func"), (p["funcs"] * 0.5, "outerupd"), (p["funcs"] * 0.3 + p["loops"] * 0.15, "loopshadowfn"), (p["errors"] * 0.4 + p["funcs"] * 0.15, "retfunc"),
+            choices += [(1.2, "if"), (p["loops"], "for"), (p["loops"] * 0.5, "while"), (p["errors"], "try"), (p["funcs"], "func"), (p["funcs"] * 0.5, "outerupd"), (p["calls"] * 0.4 + p["funcs"] * 0.1, "defaultorder"), (p["funcs"] * 0.3 + p["loops"] * 0.15, "loopshadowfn"), (p["errors"] * 0.4 + p["funcs"] * 0.15, "retfunc"),
                         (p["comps"], "comp"), (p["alias"], "alias"), (p["calls"], "call"), (p["calls"] * 0.6 + p["alias"] * 0.2, "method")]
         if ctx["loop"]:
             choices += [(p["exits"], "break"), (p["exits"], "continue"), (p["exits"] * 0.6, "tryexit"), (p["exits"] * 0.5, "calleeexit")]
@@ -221,6 +221,11 @@ class Gen:
                     fin.append("error 'in-finally'")
                 s += " finally " + "; ".join(fin)
             return [s + " end"]
+        if k == "defaultorder":
+            # a default sees the parameters declared before it and the enclosing scope - not a later parameter of the same name that the caller supplied
+            h, f = self.fresh("v"), self.fresh("f")
+            return ["def %s = %s" % (h, self.intexpr(ctx, 1)), "def %s(lo = %s, %s = 2, z = lo + %s) [lo, %s, z]" % (f, h, h, h, h),
+                    "append(log, [%s(), %s(%s = 7), %s(1, 7), %s(...<<<'%s' => 8>>>), %s(z = 0, %s = 9)])" % (f, f, h, f, f, h, f, h), "append(log, %s)" % h]
         if k == "calleeexit":
             # a break / continue that leaves a function called from inside a loop: an error of the callee, never an exit of the caller's loop
             f, a = self.fresh("f"), self.fresh("a")
@@ -422,6 +427,8 @@ class Gen:
             cond = " if %s %% 2 == %d" % (x, r.choice([0, 1]))
         form = r.choice(["list", "set", "map", "prod", "par"])
         self.features.add("comp:" + form)
+        if cond and r.random() < 0.4:
+            val = "do append(log, -3); %s end" % val        # the value expression is evaluated for the accepted elements only
         if form == "list":
             e = "[%s for %s in %s%s%s]" % (val, x, what, it, cond)
         elif form == "set":
@@ -439,7 +446,7 @@ class Gen:
             if form == "prod" and kind == "int" and r.random() < 0.35:
                 it2, y, what2 = "range(%s %% 4)" % x, self.fresh("y"), ""      # the second generator depends on the first variable
             br = ("[", "]") if r.random() < 0.75 else ("<<", ">>")
-            e = "%s[%s, %s] for %s in %s%s %sfor %s in %s%s%s" % (br[0], val, y, x, what, it, "also " if form == "par" else "", y, what2, it2, br[1])
+            e = "%s[%s, %s] for %s in %s%s %sfor %s in %s%s%s%s" % (br[0], val, y, x, what, it, "also " if form == "par" else "", y, what2, it2, cond, br[1])
         v = self.fresh("v")
         ctx["vars"][v] = "list"
         return ["def %s = %s" % (v, e), "append(log, %s)" % v]
